@@ -380,12 +380,12 @@ func newAuthnSUT() *authnSUT { return &authnSUT{} }
 
 type authnResult struct {
 	bundleErr bool // the SPIFFE bundle of a federated trust domain was refused: istiod does not start
-	rejected bool // the TLS handshake was refused: there is no request
-	crash  bool
-	caller *security.Caller
-	err    error
-	via    string
-	fixErr error
+	rejected  bool // the TLS handshake was refused: there is no request
+	crash     bool
+	caller    *security.Caller
+	err       error
+	via       string
+	fixErr    error
 }
 
 func (r authnResult) format() string {
@@ -411,15 +411,15 @@ func (r authnResult) format() string {
 // prepared is a real authenticator plus the transport-level ingredients of the request it is to see.
 type prepared struct {
 	bundleErr bool
-	rejected bool
-	auth     security.Authenticator
-	http     bool
-	md       metadata.MD // gRPC metadata / HTTP headers
-	hasPeer  bool
-	peerAddr string
-	authInfo credentials.AuthInfo // nil: peer without auth info
-	httpTLS  *tls.ConnectionState
-	via      *string
+	rejected  bool
+	auth      security.Authenticator
+	http      bool
+	md        metadata.MD // gRPC metadata / HTTP headers
+	hasPeer   bool
+	peerAddr  string
+	authInfo  credentials.AuthInfo // nil: peer without auth info
+	httpTLS   *tls.ConnectionState
+	via       *string
 }
 
 // authValues: the `authorization` values of a header form; `other` is a second, invalid token.
